@@ -287,6 +287,24 @@ def _check_jacobian(case):
                 fails[key] = {"site": f"Sphere.Jacobian {nm} vs {orc}", "msg": f"error {e:.3e} > {thr:.1e}; reported {np.ravel(fd.dense(J))[:4]}, stencil {np.ravel(D)[:4]}",
                               "data": {"x": x, "y": y, "z": z, "rho": rho, "r": r, "active": act, "rz_sign": rz, "err": e, "n_points_failing": 0}}
             fails[key]["data"]["n_points_failing"] += 1
+    # one force-reservoir object used for several contact points: what an evaluation at letter a leaves behind must not enter
+    # the evaluations at letter b (phase-wise use: all active sets first, then residuals, then Jacobians; seeded C27-l)
+    pts = [(x, y) for x, y in itertools.product(xs, ys)]
+    shared = Sphere(r)
+    for (xa, ya), (xb, yb) in zip(pts, pts[1:] + pts[:1]):
+        fresh = Sphere(r)
+        act_b = fresh.active_set(xb, yb, zv, rho)
+        ref_res = np.asarray(fresh.residual(xb, yb, zv, rho, act_b), float)
+        ref_jac = [fd.dense(J) for J in Sphere(r).Jacobian(xb, yb, zv, rho, act_b)]
+        shared.active_set(xa, ya, zv, rho)
+        got_res = np.asarray(shared.residual(xb, yb, zv, rho, act_b), float)
+        got_jac = [fd.dense(J) for J in shared.Jacobian(xb, yb, zv, rho, act_b)]
+        evals += 2
+        same = got_res.shape == ref_res.shape and np.array_equal(np.nan_to_num(got_res, nan=7e77), np.nan_to_num(ref_res, nan=7e77)) and all(
+            a_.shape == b_.shape and np.array_equal(np.nan_to_num(a_, nan=7e77), np.nan_to_num(b_, nan=7e77)) for a_, b_ in zip(got_jac, ref_jac))
+        if not same and "shared" not in fails:
+            fails["shared"] = {"site": "Sphere.residual / Jacobian of a shared object after active_set at another point vs fresh object",
+                               "msg": f"differs at x={xb}, y={yb} after active_set at x={xa}, y={ya}", "data": {"xa": xa, "ya": ya, "xb": xb, "yb": yb, "z": z, "rho": rho, "r": r}}
     return {"fails": list(fails.values()), "nontrivial": compared >= 10, "evals": evals, "outcome": sorted(oc), "stats": stats}
 
 
